@@ -16,7 +16,7 @@ CONSTANTS MaxWords,      \* state constraint: backend words
           Export         \* TRUE: print scripts; FALSE: exhaustive design check
 
 VARIABLE hist
-mcvars == <<abs, store, nw, form, hist>>
+mcvars == <<abs, store, nw, form, tight, hist>>
 
 B == {TRUE, FALSE}
 
@@ -64,7 +64,7 @@ Battery ==
     IF form \in {"vec", "boxed"}
     THEN <<[op |-> "len"], [op |-> "iter"], [op |-> "iter_ones"], [op |-> "iter_zeros"],
            [op |-> "count_ones"], [op |-> "count_zeros"], [op |-> "par_count_ones"],
-           [op |-> "get", i |-> BLen], [op |-> "to_owned"],
+           [op |-> "get", i |-> BLen], [op |-> "to_owned"], [op |-> "mem_size"],
            [op |-> "eq_other", olen |-> BLen, onw |-> nw, ostore |-> Asc(store \cap Low(BLen))],
            [op |-> "eq_other", olen |-> BLen, onw |-> nw,
             ostore |-> Asc((store \cap Low(BLen)) \cup Rng(BLen, nw * W))]>>
@@ -91,7 +91,7 @@ MCSpec == MCInit /\ [][MCNext]_mcvars
 
 Bound == nw <= MaxWords /\ BLen <= MaxWords * W
 
-View == <<abs, store, nw, form>>
+View == <<abs, store, nw, form, tight>>
 
 \* one line per complete history
 Emit == (Export /\ Len(hist) = Depth + 1) =>
